@@ -163,6 +163,33 @@ def _probe_cls():
     return ProbeModel
 
 
+def _kwarg_probe_cls():
+    """Probe whose score reveals which per-molecule keyword arguments (pos, quaternion) the task received."""
+    from acryo.alignment import BaseAlignmentModel
+
+    R = tables.rots()
+
+    class KwargProbe(BaseAlignmentModel):
+        def pre_transform(self, image, backend):
+            return image
+
+        def _optimize(self, subvolume, template, max_shifts, quaternion, pos, backend):
+            return np.zeros(3, np.float32), np.array([0, 0, 0, 1], np.float32), self._score(subvolume, template, quaternion, pos, backend)
+
+        def _score(self, subvolume, template, quaternion, pos, backend):
+            # uid recovered from the position (pixels) and, independently, from the orientation
+            u_pos = _POS2UID.get(tuple(int(round(float(x))) for x in np.asarray(pos).ravel()), -1)
+            q = Rotation.from_quat(np.asarray(quaternion, dtype=np.float64))
+            u_rot = -1
+            for u in range(0, 20):
+                if (R[u % 24].inv() * q).magnitude() < 1e-3:
+                    u_rot = u
+                    break
+            return float(u_pos if u_pos == u_rot else -1)
+
+    return KwargProbe
+
+
 def _centre_of(arr) -> float:
     a = np.asarray(arr)
     return float(a[tuple(s // 2 for s in a.shape)])
@@ -195,6 +222,15 @@ def observe(ldr, via: str):
     elif via == "landscape":
         arr = ldr.construct_landscape(templ, max_shifts=0.0, alignment_model=Probe).compute()
         vals = [float(a.ravel()[0]) for a in arr]
+    elif via in ("kwargs_score", "kwargs_align"):
+        # which (quaternion, pos) keyword arguments did task i receive?  (pairing of tasks with per-row arguments)
+        KP = _kwarg_probe_cls()
+        if via == "kwargs_score":
+            us = [int(round(float(x))) for x in ldr.score([templ], alignment_model=KP)[0]]
+        else:
+            us = [int(round(float(x))) for x in ldr.align(templ, max_shifts=1.0, alignment_model=KP).molecules.features["score"].to_list()]
+        imgs = [decode(_centre_of(a))["img"] for a in ldr.asnumpy()]
+        return [{"img": m, "uid": u} for m, u in zip(imgs, us)], None, dict(codes=[], avg_n=0)
     elif via == "average":
         vals = [_centre_of(a) for a in ldr.asnumpy()]
         avg = _centre_of(ldr.average())
